@@ -8,8 +8,9 @@ META = {
             'generator\'s record of rule and declaration spans as ground truth, symbolic integer position [S]; C10-b: fixed skeletons '
             'with symbolic content holes (string, comment, parenthesised expression, selector text, value text).',
     'bounds': {
-        'quick': 'all well-formed event sequences of <=5 events (several top-level rules included), every integer position; holes <=2 chars',
-        'thorough': '<=6 events, 4 variant rotations; holes <=3 chars',
+        'quick': 'all well-formed event sequences of <=5 events (several top-level rules included), every integer position; every ordered forest of 6 nodes (132 '
+                 'stylesheets nested up to 6 deep); holes <=2 chars',
+        'thorough': '<=6 events, 4 variant rotations; forests of 7 nodes (429 stylesheets, 2 rotations); holes <=3 chars',
     },
     'outside_claim': ['declarations terminated by `}` instead of `;` (the property speaks of semicolon-terminated declarations)',
                       'positions between the end of a value and its semicolon', 'balanced_inward at recorded boundary offsets',
@@ -116,12 +117,34 @@ def mk_events(K, first, second, rot):
         for p in (1, 5, 9, 14):
             wit.append(dict(k1=ks[1], k2=ks[2], k3=ks[3], k4=ks[4], k5=ks[5], pos=p))
     nested = first in (G.RULE, G.ATRULE) and second in (G.RULE, G.ATRULE) and K >= 4
-    return {'fn': harness(False), 'twin': harness(True) if nested else None, 'witnesses': wit,
+    return {'fn': harness(False), 'twin': harness(True) if nested else None, 'witnesses': wit, 'check': check,
             'assumptions': ['stylesheet = well-formed sequence of <=%d events, events 0,1 are kinds %d,%d, others solver-chosen from {rule, '
                             'at-rule, close, declaration, comment/blank, end}; selector/declaration/whitespace variants rotate by slot '
                             '(rotation %d); pos any integer except between a value end and its semicolon' % (K, first, second, rot)],
             'functions': ['css_matcher.match', 'balanced_outward', 'balanced_inward', 'inner_range', 'push', 'scan.scan', 'literal',
                           'comment', 'is_known_selector_colon']}
+
+
+def mk_forest(n, part, nparts, rot):
+    """stylesheets that are deeper and wider than K events reach: every ordered forest of n nodes"""
+    from vf.gen import forest
+    from vf.util import pick_int
+    check = mk_events(5, G.RULE, G.RULE, rot)['check']
+    words = [w for i, w in enumerate(forest.dyck(n)) if i % nparts == part]
+    docs = [G.build(forest.css_kinds(w, rot, G), rot) for w in words]
+
+    def harness(wrong):
+        def h(i: int, pos: int):
+            if not (0 <= i < len(docs)):
+                return 'skip'
+            doc, items = docs[pick_int(i, 0, len(docs) - 1)]
+            return check(doc, items, pos, wrong)
+        return h
+    return {'fn': harness(False), 'twin': harness(True), 'witnesses': [dict(i=0, pos=1), dict(i=len(docs) - 1, pos=7)],
+            'assumptions': ['stylesheet = ordered forest %d mod %d of all %d forests with %d nodes (solver-chosen index): inner nodes are rules '
+                            '(every fourth an at-rule), leaves declarations (every third an empty rule), rotation %d; pos any integer except '
+                            'between a value end and its semicolon' % (part, nparts, len(forest.dyck(n)), n, rot)],
+            'functions': ['css_matcher.match', 'balanced_outward', 'balanced_inward', 'scan.scan']}
 
 
 HOLES = {
@@ -215,6 +238,13 @@ def jobs(tier):
                 out.append(Job('C10-a/events/K=%d,e0=%d,e1=%d,rot=%d' % (K, first, second, rot), 'vf.props.c10:mk_events',
                                dict(K=K, first=first, second=second, rot=rot), shape='H', bound='<=%d events' % K,
                                budget=1500 if q else 6000, weight=1000 if first in (G.RULE, G.ATRULE) else 300))
+    n = 6 if q else 7
+    nparts = 6 if q else 16
+    for part in range(nparts):
+        for rot in ((0,) if q else (0, 1)):
+            out.append(Job('C10-c/forest/n=%d,rot=%d,part%d' % (n, rot, part), 'vf.props.c10:mk_forest',
+                           dict(n=n, part=part, nparts=nparts, rot=rot), shape='H', bound='forests of %d nodes' % n,
+                           budget=1500 if q else 6000, weight=900))
     for kind in HOLES:
         out.append(Job('C10-b/hole/%s' % kind, 'vf.props.c10:mk_hole', dict(kind=kind, n=2 if q else 3), shape='H',
                        bound='hole <=%d chars' % (2 if q else 3), budget=1500 if q else 6000, weight=800))
